@@ -1926,7 +1926,9 @@ func (db *DB) isBanned(key []byte) error {
 	if db.opt.NamespaceOffset < 0 {
 		return nil
 	}
-	if len(key) <= db.opt.NamespaceOffset+8 {
+	// key is the user key (no version suffix). A key that ends exactly with the 8 namespace bytes
+	// belongs to that namespace as well.
+	if len(key) < db.opt.NamespaceOffset+8 {
 		return nil
 	}
 	if db.bannedNamespaces.has(y.BytesToU64(key[db.opt.NamespaceOffset:])) {
